@@ -5,6 +5,7 @@ from fractions import Fraction
 
 import cfgmodel as M
 import fsamodel as F
+import translate_tocfg as TT
 from cfgcheck import LangTable
 from fsacheck import WTable, run_w, coq_str
 from common import dec_val, close_enough
@@ -55,7 +56,14 @@ def run(ctx):
     ctx.cov["rule"] = ("to_cfg (left and right recursion) on random automata with epsilon arcs, on automata built by from_string / from_strings (state names equal to alphabet symbols) vs the Coq weight of the automaton; "
                        "WFSA.to_bytes and CFG.to_bytes over alphabets mixing 1-4-byte characters (shared first bytes; multi-character grammar terminals) on encodings, truncated encodings and noise vs the sum over decodings of the original weights; "
                        "two byte-converted automata merged into one grammar; non-trivial = non-zero weight")
-    ok, out = ctx.build(["proofs/ConvertProofs.vo", "proofs/WfsaProofs.vo", "model/EpsSpec.vo", "proofs/CfgChart.vo"])
+    try:
+        ctx.cov["translators"].append({k: v for k, v in TT.main().items() if k != "text"})
+        ctx.obligation("translate_tocfg", True)
+        tr_ok = True
+    except TT.Refuse as e:
+        ctx.obligation("translate_tocfg", False, f"translator refused: {e}")
+        tr_ok = False
+    ok, out = ctx.build(["proofs/ConvertProofs.vo", "proofs/GenToCfgBridge.vo", "proofs/BytesProofs.vo", "proofs/WfsaProofs.vo", "model/EpsSpec.vo", "proofs/CfgChart.vo"]) if tr_ok else (False, "translator refused")
     if ok:
         ctx.prove("props/C17.v")
     else:
